@@ -35,10 +35,10 @@ type protoVariant struct {
 }
 
 func checkC05(c *hx.Ctx) {
-	c.Rule("grid: operation type {update, recover, deactivate} x (anchorFrom, anchorUntil) in {(0,0),(0,U),(F,0),(F,U),(F,F) and the inverted, never open (U,F)} x anchoring time {F-1,F,F+1,U-1,U,U+1,F+D-1,F+D,F+D+1, 1, 2^40} x MaxOperationTimeDelta D {1,300,7200} x one unrelated protocol parameter moved far below/above D at a time (delta size, operation size, operation count, nonce size, hash length, file sizes, decompression factor, CAS URI length); oracle: effect in window / commitment consumed out of window / deactivate ignored, computed from (from, until, D, t) only; intake: arguments received by the installed TimeValidator = (from, effective until); exhaustive over the grid; a second grid has two protocol versions with different time deltas (genesis 0 and 5100): the default window of an operation is computed with the delta of the version stamped on the anchored operation, whatever version is in force at its anchoring time; operations declaring only anchorFrom waiting in the REAL batch writer's queue across an upgrade that changes the delta: the window handed to the server-time validator at batch cut time and the decision to anchor follow the version the operation was accepted under; non-trivial = every grid point with a declared window; distinct = grid points")
+	c.Rule("grid: operation type {update, recover, deactivate} x (anchorFrom, anchorUntil) in {(0,0),(0,U),(F,0),(F,U),(F,F) and the inverted, never open (U,F)} x anchoring time {F-1,F,F+1,U-1,U,U+1,F+D-1,F+D,F+D+1, 1, 2^40} x MaxOperationTimeDelta D {0,1,300,7200} x one unrelated protocol parameter moved far below/above D at a time (delta size, operation size, operation count, nonce size, hash length, file sizes, decompression factor, CAS URI length); oracle: effect in window / commitment consumed out of window / deactivate ignored, computed from (from, until, D, t) only; intake: arguments received by the installed TimeValidator = (from, effective until); exhaustive over the grid; a second grid has two protocol versions with different time deltas (genesis 0 and 5100): the default window of an operation is computed with the delta of the version stamped on the anchored operation, whatever version is in force at its anchoring time; operations declaring only anchorFrom waiting in the REAL batch writer's queue across an upgrade that changes the delta: the window handed to the server-time validator at batch cut time and the decision to anchor follow the version the operation was accepted under; non-trivial = every grid point with a declared window; distinct = grid points")
 	c.Set("exhaustive", true)
 	F, U := int64(5000), int64(5100)
-	deltas := []uint64{1, 300, 7200}
+	deltas := []uint64{0, 1, 300, 7200} // 0 is a legal value: an operation declaring only anchorFrom is then valid at that very time only
 	variants := []protoVariant{
 		{"base", func(p *protocol.Protocol) {}},
 		{"MaxDeltaSize=1500", func(p *protocol.Protocol) { p.MaxDeltaSize = 1500 }},
